@@ -199,7 +199,10 @@ func genTSSCase(rt *rapid.T, p tssProfile) tssCase {
 		case 3:
 			v := "good"
 			if p.corrupt {
-				v = gen.OneOf(rt, "sigv", "good", "good", "badz", "badr", "otherz", "wrongid", "wrongsigner", "othermsg", "flip", "shift", "mirror", "mirror", "nonassigned", "dup")
+				v = gen.OneOf(rt, "sigv", "good", "good", "badz", "badr", "otherz", "wrongid", "wrongsigner", "othermsg", "flip", "shift", "mirror", "mirror", "negnonce", "negnonce", "nonassigned", "dup")
+			} else if gen.Chance(rt, "fewbad", 1, 6) {
+				// also outside the C03 profile: a few shares that a lax check would accept and that can then never aggregate
+				v = gen.OneOf(rt, "sigvfew", "negnonce", "mirror", "badz")
 			}
 			c.Ops = append(c.Ops, tssOp{K: "sig", S: gen.Uniform(rt, "s", 8), M: gen.Uniform(rt, "m", 8), Variant: v})
 		case 4:
@@ -584,6 +587,28 @@ func (w *tssWorld) buildSig(sid uint64, mi int, variant string, inBlock map[stri
 						if s2, e3 := tss.NewSignatureFromComponents(sig.R(), zs); e3 == nil {
 							sig = s2
 							bt.expectOK, bt.why = false, "mirrored scalar (share equation gives -R)"
+						}
+					}
+				}
+			}
+		}
+	case "negnonce":
+		// a share made with the NEGATED private nonce: R' = -R_assigned (same x coordinate, other parity prefix) and
+		// z' = -k + c*lambda*d = z - 2k. It is a valid share for -R', but not for the nonce the chain assigned.
+		if am, okm := tsstypes.AssignedMembers(sa.AssignedMembers).FindAssignedMember(mem.ID); okm {
+			if de, okd := w.wallet.Lookup(tsstypes.DE{PubD: am.PubD, PubE: am.PubE}); okd {
+				if k, e1 := tss.ComputeOwnPrivNonce(de.PrivD, de.PrivE, am.BindingFactor); e1 == nil {
+					z := new(big.Int).SetBytes(sig.S())
+					kk := new(big.Int).SetBytes(k)
+					z.Sub(z, kk).Sub(z, kk).Mod(z, n)
+					r := append([]byte{}, sig.R()...)
+					if len(r) == 33 {
+						r[0] ^= 0x01 // 02 <-> 03
+					}
+					if zs, e2 := tss.NewScalar(leftPad(z.Bytes(), 32)); e2 == nil {
+						if s2, e3 := tss.NewSignatureFromComponents(tss.Point(r), zs); e3 == nil {
+							sig = s2
+							bt.expectOK, bt.why = false, "negated nonce (-R, z-2k)"
 						}
 					}
 				}
